@@ -177,10 +177,22 @@ def run(chk):
     for k in cfg[0].keywords:
         if k.arg in fparams:
             cargs[fparams.index(k.arg) - 1] = unparse(k.value).replace(" ", "")
+    # local index names of compress (e.g. `bond_idx = idx + 1 if self.to_right else idx`) are resolved through their single definition
+    local_defs = {}
+    for st_ in ast.walk(cp.node):
+        if isinstance(st_, ast.Assign) and len(st_.targets) == 1 and isinstance(st_.targets[0], ast.Name):
+            local_defs.setdefault(st_.targets[0].id, []).append(st_.value)
     for direction in (True, False):
-        explicit = sym_eval(sub[0].slice, {"idx": I}, {"self.to_right": direction})
+        cenv = {"idx": I}
+        for nm, vals in local_defs.items():
+            if len(vals) == 1 and nm != "idx":
+                try:
+                    cenv[nm] = sym_eval(vals[0], {"idx": I}, {"self.to_right": direction})
+                except AnalysisError:
+                    pass
+        explicit = sym_eval(sub[0].slice, cenv, {"self.to_right": direction})
         # config path: compute_m_trunc(sigma, <site>, <left>) -> _fixed_m_trunc(sigma, idx, left) -> max_dims[bond]
-        site = sym_eval(cfg[0].args[1], {"idx": I}, {"self.to_right": direction})
+        site = sym_eval(cfg[0].args[1], cenv, {"self.to_right": direction})
         from ..flow import bool_eval
         left = bool_eval(ast.parse(cargs[2], mode="eval").body, {"self.to_right": direction})
         env = {"idx": site}
